@@ -23,7 +23,8 @@ RULE = (
     "observations (states, results, exceptions, complete callback logs, argument binding) equal what the reference interpreter gives for H alone - "
     "the quiet world - and sibling instances follow their own interpreter; classes defined by earlier cases of the run stay loaded, so pollution "
     "left by earlier examples shows too. In a quarter of the cases, additionally, MachineMixin model classes in an inheritance chain (a subclass overriding "
-    "state_machine_name, one inheriting it), instantiated in a generated order, must each get the machine class their own class names. non-trivial = a noise operation executed between two steps of A that reuses a name A uses, or a sibling "
+    "state_machine_name, one inheriting it), instantiated in a generated order, must each get the machine class their own class names; and a shallow copy (copy.copy) of a machine is treated as one more instance: its "
+    "triggers drive the copy, a listener attached to the copy is never called by the original nor by later deepcopy / pickle clones of the original. non-trivial = a noise operation executed between two steps of A that reuses a name A uses, or a sibling "
     "driven from inside A's callbacks"
 )
 ASSUMPTIONS = [
@@ -208,6 +209,73 @@ def mixin_family(case):
     return None, {"mixin-family", "mixin-family:first=" + fam["order"][0]}
 
 
+class Spy:
+    """listener attached to ONE instance; records (at class level, so that copies of it report too) which machine called it"""
+
+    calls = []
+
+    def after_transition(self, machine):
+        Spy.calls.append(machine)
+
+
+def shallow_twin(case):
+    """A shallow copy (copy.copy) of a machine is one more instance: its triggers drive the copy, a listener attached to it is
+    invoked by it alone - not by the machine it was copied from, nor by later deepcopy / pickle clones of that machine."""
+    import pickle
+
+    from ..scenario import dispose
+
+    tw = case.get("twin")
+    if not tw:
+        return None, set()
+    r = render(tw["spec"])
+    try:
+        with warnings.catch_warnings():
+            warnings.simplefilter("ignore")
+            base, Hb = r.make(allow=False)
+            Hb.val.update({cid: True for cid in tw["true_guards"]})
+            for ev in tw["spec"]["events"]:
+                getattr(base, ev)  # every trigger has been looked at on the original
+            twin = copy.copy(base)
+            if twin is base:
+                return outcome_fail("C16:shallow-twin", "copy.copy(machine) is the machine itself", case), set()
+            Spy.calls = []
+            twin.add_listener(Spy())
+            fired = 0
+            for ev, style in tw["on_twin"]:
+                n0 = len(Spy.calls)
+                try:
+                    getattr(twin, ev)() if style == "method" else twin.send(ev)
+                except TransitionNotAllowed:
+                    continue
+                except Boom:
+                    continue
+                fired += 1
+                if len(Spy.calls) == n0:
+                    return outcome_fail("C16:shallow-twin", f"{style} {ev!r} on a shallow copy ran a transition, but the listener attached to that copy was not called (the event went elsewhere)", case), set()
+            if any(m is not twin for m in Spy.calls):
+                return outcome_fail("C16:shallow-twin", "a listener attached to a shallow copy was called by another machine", case), set()
+            n0 = len(Spy.calls)
+            for ev in tw["on_base"]:
+                try:
+                    base.send(ev)
+                except (TransitionNotAllowed, Boom):
+                    pass
+            clone = copy.deepcopy(base) if tw["how"] == "deepcopy" else pickle.loads(pickle.dumps(base))
+            for ev in tw["on_clone"]:
+                try:
+                    clone.send(ev)
+                except (TransitionNotAllowed, Boom):
+                    pass
+            if len(Spy.calls) != n0:
+                who = "the original" if any(m is base for m in Spy.calls[n0:]) else f"a {tw['how']} clone of the original"
+                return outcome_fail("C16:shallow-twin", f"a listener attached to a shallow copy only was called by {who}", case), set()
+    finally:
+        Spy.calls = []
+        dispose(r)
+    return None, {"shallow-twin", "shallow-twin:fired" if fired else "shallow-twin:nothing-fired"}
+
+
 def outcome_fail(sig, detail, case):
     from ..scenario import outcome
 
@@ -277,7 +345,15 @@ def cases(draw, tier):
     if draw(st.integers(0, 3)) == 0:
         fs = [draw(gen.machine_spec(max_states=3, max_extra=2, providers=("machine",), async_mode="none", sends=False, attach=("conv", "name"))) for _ in range(2)]
         family = {"specs": fs, "order": draw(st.permutations(["Doc", "Legal", "Memo"]))}
-    return {"spec": spec, "cfg": cfg, "history": hist, "family": family, "noise_specs": [flipped(spec), other], "driver_listener": not is_async, "sib_instance_cbs": draw(st.booleans()), "sib_late_as_ctor": draw(st.booleans()), "shared_target": draw(st.booleans())}
+    twin = None
+    if draw(st.integers(0, 3)) == 0:
+        ts = draw(gen.machine_spec(max_states=3, max_extra=3, providers=("machine",), async_mode="none", sends=False, attach=("conv", "name"), guard_kinds=("method",)))
+        evs = st.lists(st.sampled_from(ts["events"]), max_size=4)
+        from ..core import cbid_of
+
+        twin = {"spec": ts, "true_guards": [cbid_of(g) for g in ts["guards"] if draw(st.booleans())], "how": draw(st.sampled_from(["deepcopy", "pickle"])),
+                "on_twin": [(e, draw(st.sampled_from(["method", "send"]))) for e in draw(evs)], "on_base": draw(evs), "on_clone": draw(evs)}
+    return {"spec": spec, "cfg": cfg, "history": hist, "family": family, "twin": twin, "noise_specs": [flipped(spec), other], "driver_listener": not is_async, "sib_instance_cbs": draw(st.booleans()), "sib_late_as_ctor": draw(st.booleans()), "shared_target": draw(st.booleans())}
 
 
 def strategy(tier):
@@ -292,9 +368,10 @@ def run_case(case):
     out = play_case(case, P, PROPERTY)
     if not out["ok"]:
         return out
-    bad, labels = mixin_family(case)
-    if bad is not None:
-        return bad
-    if labels:
-        out["labels"] = sorted(set(out.get("labels", ())) | labels)
+    for fam in (mixin_family, shallow_twin):
+        bad, labels = fam(case)
+        if bad is not None:
+            return bad
+        if labels:
+            out["labels"] = sorted(set(out.get("labels", ())) | labels)
     return out
